@@ -7,7 +7,7 @@ STDMODEL = ['iter.rs', 'hash.rs', 'std.rs']
 CONF = 'cedar-policy-core/src/entities/conformance.rs'
 ASSUMPTIONS = [
     'The Schema / EntityTypeDescription traits mean what their spec views say (implementations such as CoreSchema are not verified against them).',
-    'typecheck_value_against_schematype decides has_type (recursive value typing: assumed); validate_euids_in_partial_value decides euids_valid (assumed); Entity::deep_eq, Entity accessors (attrs/tags/ancestors enumerate the stored maps) are assumed.',
+    'typecheck_value_against_schematype decides has_type (recursive value typing: assumed); validate_euids_in_partial_value is under contract (the enumeration of the sub-expressions of a value, RestrictedExpr::from(v).subexpressions() / Expr::subexpressions(), is an uninterpreted sequence); Entity::deep_eq, Entity accessors (attrs/tags/ancestors enumerate the stored maps) are assumed.',
     'Only the entity conformance checker is covered: request/context validation (validate_request, validate_scope_variables) and the entry points that call the checker (Entities::from_entities/add/upsert, JSON parsers) are not.',
 ]
 W = "impl<S: Schema> EntitySchemaConformanceChecker<'_, S>"
@@ -31,6 +31,10 @@ ITEMS = [
        rewrites=[ClosureRw(r'e', 'e: &Expr', 'std::result::Result<(), ValidateEuidError>',
                            ensures='x is Ok <==> (match e.spec_kind() { ExprKind::Lit(Literal::EntityUID(u)) => euid_ok(schema, *u), _ => true })', rname='x', count=1)],
        ensures=[('all_uids', 'r is Ok <==> forall|i: int| 0 <= i < exprs.items().len() ==> match (#[trigger] exprs.items()[i]).spec_kind() { ExprKind::Lit(Literal::EntityUID(u)) => euid_ok(schema, *u), _ => true }')]),
+    Fn(CONF, 'fn validate_euids_in_partial_value',
+       sig_rewrites=[(r'schema: &impl Schema', 'schema: &S', 1), (r'fn validate_euids_in_partial_value\(', 'fn validate_euids_in_partial_value<S: Schema>(', 1)],
+       rewrites=[(r'RestrictedExpr::from\(val\.clone\(\)\)\.subexpressions\(\)', 'vx_value_subexprs(val)', None), (r'\be\.subexpressions\(\)', 'vx_expr_subexprs(e)', None)],
+       ensures=[('all_uids', 'r is Ok <==> euids_valid(schema, *val)')]),
     Fn(CONF, "impl<S: Schema> EntitySchemaConformanceChecker<'_, S> > fn validate_action", wrap=W,
        rewrites=[(r'\.ok_or_else\(\|\| EntitySchemaConformanceError::undeclared_action\(uid\.clone\(\)\)\)', '.ok_or_else(|| -> (e: EntitySchemaConformanceError) ensures true { EntitySchemaConformanceError::undeclared_action(uid.clone()) })', 1)],
        ensures=[('ok_iff', 'r is Ok <==> (self.schema.sp_action(action.spec_uid()) is Some && action.spec_deep_eq(*self.schema.sp_action(action.spec_uid())->Some_0))')]),
